@@ -115,6 +115,12 @@ def catalogue(cfg, iso, sh, rng):
             yield 'add_symlink', 'missing-parent:udf', LATE, lambda: iso.add_symlink(symlink_path='/SYMX.;1', rr_symlink_name='symx', rr_path='tgt',
                                                                                    udf_symlink_path='/nodir/symx', udf_target='tgt')
     if cfg.rr:
+        # set_relocated_name: whatever makes it raise (also causes that only a changed library knows), it must change nothing
+        for nm, rrn in (('XYZ', 'x/y'), ('XYZ', ''), ('bad name', 'x'), ('N' * 300, 'n'), ('OTHER', 'other'), ('', 'e')):
+            yield 'set_relocated_name', 'candidate:%s/%s' % (nm[:8], rrn), EARLY, (lambda nm=nm, rrn=rrn: iso.set_relocated_name(nm, rrn))
+        if '/XYZ/FOO' in dirs['iso']:
+            yield 'add_directory', 'duplicate-under-renamed-relocation-directory', EARLY, lambda: iso.add_directory(iso_path='/XYZ/FOO', rr_name='foo')
+            yield 'add_directory', 'duplicate-of-relocated-directory', EARLY, lambda: iso.add_directory(iso_path='/XYZ/Q7', rr_name='q7')
         yield 'set_hidden', 'missing:rr-name-sorts-last', EARLY, lambda: iso.set_hidden(rr_path='/zzzzzzzzzz-not-there')
         deep = '/Q0/Q1/Q2/Q3/Q4/Q5/Q6'
         if deep in dirs['iso'] and cfg.level in (2, 3):
@@ -188,6 +194,12 @@ def further_edits(iso, cfg, sh=None):
         # entries that need continuation areas: a slot leaked by a refused call shifts them
         iso.add_fp(io.BytesIO(b'q'), 1, iso_path='/LATERQ.;1', rr_name='q' * 180)
         iso.add_symlink(symlink_path='/LATERS.;1', rr_symlink_name='laters', rr_path='/'.join(['v' * 50] * 4))
+        if cfg.level < 4:
+            # relocation: which directory receives a deep directory shows a relocation name left behind by a refused call
+            p = ''
+            for d in range(8):
+                p += '/LQ%d' % d
+                iso.add_directory(iso_path=p, rr_name='lq%d' % d)
     f = sh['files']['iso'][0] if sh and sh['files']['iso'] else None
     if f and cfg.udf:
         f = sh.get('nudf') or f
@@ -219,6 +231,10 @@ def run(ctx):
             for d in range(7):
                 p += '/Q%d' % d
                 chain.append({'k': 'add_dir', 'iso': p, 'rr': 'q%d' % d})
+            if cfg.level < 4 and rng.random() < 0.6:
+                # ... with a RENAMED relocation directory that is in use and holds a directory of the user
+                chain = [{'k': 'set_reloc', 'name': 'XYZ', 'rr': 'xyz'}] + chain + [
+                    {'k': 'add_dir', 'iso': p + '/Q7', 'rr': 'q7'}, {'k': 'add_dir', 'iso': '/XYZ/FOO', 'rr': 'foo'}]
             ops = chain + ops
         boot = rng.choice([0, 0, 1, 3])
         base, info = build_obj(cfg, ops, sizes, boot)
